@@ -389,6 +389,16 @@ MUTATIONS += [
     dict(id="C03-merge-snapshot-saved-first", prop="C03", file=MRG, old="    snap.tree = merge_trees(repo, &trees, cmp, &mut summary)?;\n", new="    snap.id = repo.dbe().save_file(&snap)?.into();\n    snap.tree = merge_trees(repo, &trees, cmp, &mut summary)?;\n"),
 ]
 
+# ---- C14 write kernel of restore_contents
+RSF = "crates/core/src/commands/restore.rs"
+MUTATIONS += [
+    dict(id="C14-write-sparse-skip-unconditional", prop="C14", file=RSF, old="                                let skip = is_sparse\n                                    && dest\n                                        .read_at(path, start, size)\n                                        .is_ok_and(|old| old.iter().all(|&b| b == 0));\n", new="                                let skip = is_sparse;\n"),
+    dict(id="C14-write-no-alloc-reset", prop="C14", file=RSF, old="                                    dest.set_length(path, filesize).unwrap();\n                                    sizes_guard[file_idx] = 0;\n", new="                                    dest.set_length(path, filesize).unwrap();\n"),
+    dict(id="C14-write-at-zero-offset", prop="C14", file=RSF, old="                                    dest.write_at(path, start, &data).unwrap();\n                                }\n                                p.inc(size);", new="                                    dest.write_at(path, 0, &data).unwrap();\n                                }\n                                p.inc(size);"),
+    dict(id="C14-write-alloc-skipped", prop="C14", file=RSF, old="                                if filesize > 0 {\n                                    dest.set_length(path, filesize).unwrap();", new="                                if filesize > 1 {\n                                    dest.set_length(path, filesize).unwrap();"),
+    dict(id="C14-sparse-decision-no-means-yes", prop="C14", file=RSF, old="                            SparseRestore::No => false,", new="                            SparseRestore::No => true,"),
+]
+
 HARMLESS = [
     dict(id="H-C05-trees-symlink-continue", prop="C05", file=CK, old="        for node in tree.nodes {\n            match node.node_type {", new="        for node in tree.nodes {\n            if node.node_type == NodeType::Symlink {\n                continue;\n            }\n            match node.node_type {"),
     # independent statements reordered
